@@ -67,8 +67,8 @@ StepNames == {"P01_Exact", "P01_DeliveryAccepted", "P01_RefundRestores", "P01_Fa
 \* state predicates (on the recorded post-state and the history after the step)
 StatePred(name, w2, h2) ==
   CASE name = "Conservation" -> Conservation(w2, h2) [] name = "NoNegative" -> NoNegative(w2) [] name = "WellFormed" -> WellFormed(w2, h2)
-    [] name = "SysClean" -> SysClean(w2) [] OTHER -> TRUE
-StateNames == {"Conservation", "NoNegative", "WellFormed", "SysClean"}
+    [] name = "SysClean" -> SysClean(w2) [] name = "CounterWithRole" -> CounterWithRole(w2, h2) [] OTHER -> TRUE
+StateNames == {"Conservation", "NoNegative", "WellFormed", "SysClean", "CounterWithRole"}
 
 
 \* vacuity counters: which situations the run exercised
